@@ -1078,7 +1078,11 @@ impl<'a> GeneratorState<'a> {
                 let v = self.compiler_state.get_variable(name);
                 match v.var_type {
                     VariableType::CharPtr => {
-                        self.asm(STA, &ExprType::Absolute(name.clone(), true, 0), pos, false)?;
+                        // Like load/store: an explicit access the optimizer must keep
+                        self.protected = true;
+                        let ret = self.asm(STA, &ExprType::Absolute(name.clone(), true, 0), pos, false);
+                        self.protected = false;
+                        ret?;
                         Ok(())
                     }
                     _ => Err(self
